@@ -214,7 +214,7 @@ def units(tier, seed):
 
 # ---- level B: the value Economics.Calculate finally reports, with and without add-ons -------------------------------------
 CALC_BOUNDS = {
-    'quick': [(k, em, 2, 1, a) for k in ('electricity', 'direct-use', 'cogen-topping') for em in (1, 2, 3) for a in (0, 1)] + [('sbt', 3, 2, 1, 0)],
+    'quick': [(k, em, 2, 1, a) for k in ('electricity', 'direct-use', 'cogen-topping') for em in (1, 2, 3) for a in (0, 1)] + [('sbt', 3, 2, 1, 0), ('chiller', 3, 2, 1, 1), ('heat-pump', 2, 2, 1, 1)],
     'thorough': [(k, em, L, K, a) for k in ('electricity', 'direct-use', 'chiller', 'heat-pump', 'district-heating', 'cogen-topping', 'cogen-bottoming', 'cogen-parallel')
                  for em in (1, 2, 3) for (L, K, a) in ((2, 1, 0), (2, 1, 1), (3, 2, 2))] + [('sbt', em, 2, 1, 0) for em in (1, 2, 3)],
 }
@@ -288,7 +288,7 @@ def calc_concrete(cfg, inputs, only=None):
     ref = [float(x) for x in ref]
     bad = [nm for nm, o, r in zip(('LCOE', 'LCOH', 'LCOC'), out, ref) if not harness.close(o, r, rel=1e-7) and (only is None or nm == only)]
     return bool(bad), {'reported(LCOE,LCOH,LCOC)': out, 'reference on the reported quantities': ref, 'differs_in': bad,
-                       'reported energy': {a: [float(x) for x in getattr(m.surfaceplant, a).value][:n] for a in ('NetkWhProduced', 'HeatkWhProduced')}}
+                       'reported energy': {a: [float(x) for x in np.ravel(getattr(m.surfaceplant, a).value)][:n] for a in ('NetkWhProduced', 'HeatkWhProduced') if hasattr(m.surfaceplant, a)}}
 
 
 def run_calc_unit(unit):
@@ -313,6 +313,22 @@ def run_calc_unit(unit):
         m = calc_drive(cfg, vals, symbolic=True)
         e = m.economics
         return zv, (e.LCOE.value, e.LCOH.value, e.LCOC.value), oracle(reported(m, n), em, eu, pt, n)
+    def probe():
+        import random
+        rnd = random.Random(1)
+        for j in range(3):
+            inp = {}
+            for name, kind, lo_, hi_ in spec:
+                if kind != 'real':
+                    continue
+                if 'Produced' in name:
+                    inp[name] = 3.0e7 * (1 + 0.1 * rnd.random())
+                elif 'AddOn' in name:
+                    inp[name] = 1.0e6 * (1 + rnd.random())
+                else:
+                    a, b = (lo_ if lo_ is not None else 0.0), (hi_ if hi_ is not None else 1.0)
+                    inp[name] = a + (b - a) * (0.25 + 0.5 * rnd.random())
+            yield inp
     k = 0
     for pr in core.explore(fn, max_paths=4000):
         log.path(pr)
@@ -331,7 +347,10 @@ def run_calc_unit(unit):
             robust = z3.And(z3.Or(d > 0.01 * lr, d < -0.01 * lr), lr > 0.01, lr < 1000)
             harness.discharge(log, c, f'{nm} finally reported by Economics.Calculate == reference formula on the reported quantities', lo == lr, zv,
                               lambda inp, nm=nm: calc_concrete(cfg, inp, only=nm), timeout_ms=tmo, robust=robust, sample=(k == 1), ctxfree_ms=tmo,
-                              desc=f'{nm} [{cfg["kind"]} em={cfg["em"]} L={n} K={cfg["K"]} add-ons={cfg.get("addon", 0)}]')
+                              desc=f'{nm} [{cfg["kind"]} em={cfg["em"]} L={n} K={cfg["K"]} add-ons={cfg.get("addon", 0)}]', probe=probe)
+        if log['cex'] or log['inconclusive']:      # hand over what was found so far: a later time-out of the unit must not lose it
+            yield log.result()
+            log = harness.UnitLog({k_: v for k_, v in cfg.items() if k_ != 'extra'})
     yield log.result()
 
 
